@@ -435,7 +435,9 @@ def register(M):
                         raise AnalysisError('string arrays not modelled', node)
                     raise AnalysisError(f'np.array of {type(x).__name__} not modelled', node)
                 els.append(El(o[1], False))
-                if isinstance(x, Sc):
+                if getattr(x, 'abs_dtype', None) is not None:
+                    codes.add(tuple(x.abs_dtype))
+                elif isinstance(x, Sc):
                     codes.add((x.dtype, x.unit))
                 elif isinstance(x, bool):
                     codes.add(('b1', None))
@@ -512,6 +514,8 @@ def register(M):
                 if src == 'm8':
                     d = X.scale(d, Fr(1) / UNIT_SECONDS[sunit])
                 d = trunc_expr(d, src)
+                if code == 'u1' and X.is_num(d):
+                    d = X.num(d[1] % 256)        # unsigned 8-bit wrap-around
             elif code == 'b1':
                 d = bool_of_el(d)
             elif code == 'm8':
@@ -529,11 +533,29 @@ def register(M):
                 else:
                     d = X.scale(num_of_el(d), UNIT_SECONDS[unit])
             elif code == 'M8':
+                if unit not in UNIT_SECONDS and unit not in (None, 'generic'):
+                    raise AnalysisError(f'datetime unit {unit!r} not modelled', node)
+                us = UNIT_SECONDS.get(unit, Fr(1, 10**9))
                 if src == 'M8':
-                    pass
+                    # conversion to a coarser unit truncates the instant (floor) to a whole number of units
+                    if us > UNIT_SECONDS.get(sunit or 'ns', Fr(1, 10**9)):
+                        if X.is_num(d):
+                            d = X.num(floor_fr(d[1] / us) * us)
+                        elif d not in (X.NAN, X.ANY):
+                            d = X.scale(X.fn('floor', X.scale(d, Fr(1) / us)), us)
+                elif src in ('f8', 'i8') and unit in UNIT_SECONDS:
+                    # number of <unit>s since the epoch; a float is truncated to a whole number of units
+                    if X.is_num(d):
+                        d = X.num(trunc_fr(d[1]) * us)
+                    elif d == X.NAN:
+                        d = X.NAN
+                    elif d != X.ANY:
+                        d = X.scale(X.fn('trunc', d), us) if src == 'f8' else X.scale(d, us)
                 elif src == 'O' and getattr(v, 'datelike', False):
                     if d == NONE_EL:
                         d = X.NAN      # NaT
+                elif src == 'O':
+                    raise AbsRaise(ExcVal('ValueError', ('Could not convert object to NumPy datetime',)), node)
                 else:
                     raise AnalysisError(f'astype datetime64 from {src} not modelled', node)
             elif code == 'O':
@@ -901,6 +923,17 @@ def register(M):
     E['numpy.divide'] = E['numpy.true_divide'] = binary_ufunc(X.div, out_dtype='f8')
     E['numpy.logical_and'] = binary_ufunc(X.f_and, out_dtype='b1', boolean=True)
     E['numpy.logical_or'] = binary_ufunc(X.f_or, out_dtype='b1', boolean=True)
+    @ext('numpy.isclose')
+    def _isclose(interp, args, kw, node):
+        """|a - b| <= atol + rtol * |b|  (rtol defaults to 1e-5, atol to 1e-8)"""
+        rtol = M.conc_num(kwarg(args, kw, 2, 'rtol', Fr(1, 100000)), node)
+        atol = kwarg(args, kw, 3, 'atol', Fr(1, 10**8))
+        ao = as_operand(atol)
+        if ao is None:
+            raise AnalysisError('isclose atol not modelled', node)
+        f = binary_ufunc(lambda x, y: X.cmp('le', X.abs_(X.sub(x, y)), X.add(num_of_el(ao[1]), X.scale(X.abs_(y), rtol))), out_dtype='b1')
+        return f(interp, args[:2], {}, node)
+
     E['numpy.greater'] = binary_ufunc(lambda x, y: X.cmp('gt', x, y), out_dtype='b1')
     E['numpy.less'] = binary_ufunc(lambda x, y: X.cmp('lt', x, y), out_dtype='b1')
     E['numpy.greater_equal'] = binary_ufunc(lambda x, y: X.cmp('ge', x, y), out_dtype='b1')
@@ -936,6 +969,8 @@ def register(M):
                 raise AbsRaise(ExcVal('TypeError', ("unsupported operand type(s) for -: 'NoneType'",)), node)
         els = v.els()
         check_oob(interp, els, node)
+        from .models_np import note_int_arith
+        note_int_arith(interp, (v,), node)
         out = []
         for i in range(len(els) - 1):
             a, b = els[i + 1], els[i]
@@ -946,7 +981,7 @@ def register(M):
             out.append(El(d, m_or(a.m, b.m)))
         dt, unit = v.dtype, v.unit
         if dt == 'M8':
-            dt, unit = 'm8', 'ns'
+            dt, unit = 'm8', (v.unit or 'ns')
         if dt == 'u1':
             dt = 'u1'
         kind = 'nd' if v.kind in ('index', 'dtindex', 'series') else v.kind
